@@ -5,10 +5,12 @@ CONSTANTS
   RootLim = 2
   NodeLim = 3
   MaxOps = 8
+  WithRebuild = FALSE
 INVARIANT InvDx
 INVARIANT InvLookup
 INVARIANT InvLive
 INVARIANT InvChain
 INVARIANT InvDisguise
 INVARIANT InvRefusal
+INVARIANT InvRebuiltForm
 CHECK_DEADLOCK FALSE
